@@ -649,7 +649,10 @@ class Exec(Interp):
         st.nref = nref_new
         ctx = SpecCtx(ctx0.pre_heap, ctx0.pre_env, pre_nref=ctx0.pre_nref)
         rk = self.result_kind(fi, c)
-        if chosen.raises is None:
+        raises = chosen.raises
+        if chosen.any_outcome and st.decide(2, "any-outcome:%s" % fi.qualname) == 1:
+            raises = "Exception"
+        if raises is None:
             if rk is KNone:
                 res = NONE
             elif isinstance(rk, KTuple):
@@ -674,12 +677,14 @@ class Exec(Interp):
                         self.assume(st, res.term == rv.term)
             if chosen.returns_pred is not None:
                 self.assume(st, self.spec_eval(st, chosen.returns_pred, ctx, env, fi.module, fi))
+            for e in chosen.ensures_return:
+                self.assume(st, self.spec_eval(st, e, ctx, env, fi.module, fi))
         for e in list(chosen.ensures) + list(c.ensures_all):
             self.assume(st, self.spec_eval(st, e, ctx, env, fi.module, fi))
         if not st.feasible():
             raise PathCut()
-        if chosen.raises is not None:
-            cls = self.exc_class(chosen.raises, fi)
+        if raises is not None:
+            cls = self.exc_class(raises, fi)
             raise PyRaise(PyExc(cls, where="contract %s/%s called at line %s" % (fi.qualname, chosen.name, line)))
         return res
 
@@ -821,6 +826,12 @@ class Exec(Interp):
                     label = e if isinstance(e, str) else getattr(e, "__name__", "ens%d" % n)
                     st.oblige("%s:post/%s/%d" % (q, cs.name, n), z3.Implies(w, g), kind="post",
                               info={"clause": label, "outcome": desc}, assume_after=False)
+                if outcome.kind == "return":
+                    for n, e in enumerate(cs.ensures_return):
+                        g = self.spec_eval(st, e, ctx)
+                        label = e if isinstance(e, str) else getattr(e, "__name__", "ensr%d" % n)
+                        st.oblige("%s:post/%s/ret%d" % (q, cs.name, n), z3.Implies(w, g), kind="post",
+                                  info={"clause": label, "outcome": desc}, assume_after=False)
             for n, e in enumerate(c.ensures_all):
                 g = self.spec_eval(st, e, ctx)
                 label = e if isinstance(e, str) else getattr(e, "__name__", "ens%d" % n)
